@@ -293,13 +293,17 @@ func RunOne(scn Scenario, tmpl, dir string, tr int, seed int64, choices []string
 					continue
 				}
 				// the proc may be about to arrive (it was briefly waiting for a harness lock): wait for it
-				waitLimit := 40
+				waitLimit := 240 // strict replay of a prefix: on a loaded machine the proc may take seconds to arrive (about 5 s in all)
 				if scn.Lenient {
 					waitLimit = 4 // a lenient schedule names requests that the code may rightly keep waiting (a lock): do not wait long for them
 				}
 				if p, ok := procs[chosen]; ok && !p.Done && diverge < waitLimit {
 					diverge++
-					time.Sleep(time.Duration(diverge) * time.Millisecond)
+					pause := diverge
+					if pause > 25 {
+						pause = 25
+					}
+					time.Sleep(time.Duration(pause) * time.Millisecond)
 					lockBlocked[chosen] = true
 					continue
 				}
